@@ -79,10 +79,10 @@ var c16Steps = []string{
 }
 
 type c16Scenario struct {
-	Actors  [][]string `json:"actors"`
-	Session []int      `json:"session_of_actor"` // session index per actor (shared when equal)
+	Actors  [][]string  `json:"actors"`
+	Session []int       `json:"session_of_actor"` // session index per actor (shared when equal)
 	Hold    *sched.Hold `json:"hold,omitempty"`
-	Random  bool       `json:"random_delays"`
+	Random  bool        `json:"random_delays"`
 }
 
 func c16Gen(r *fw.Rand) c16Scenario {
